@@ -14,29 +14,36 @@ bit-exactly against Go by the correspondence runs of C10 and C13). -/
 class LawfulVal (α : Type) [LinearOrder α] [Val α] : Prop where
   lt_iff : ∀ a b : α, Val.lt a b = true ↔ a < b
   eq_iff : ∀ a b : α, Val.eq a b = true ↔ a = b
+  /-- the sign tie-break of `NewSample` never separates a value from itself -/
+  before_irrefl : ∀ a : α, Val.before a a = false
 
 variable {α : Type} [LinearOrder α] [Val α] [LawfulVal α]
 
 set_option linter.unusedSimpArgs false
 
+theorem sortLe_iff (a b : α) : sortLe a b = true ↔ a ≤ b := by
+  unfold sortLe
+  by_cases h1 : Val.lt a b = true
+  · simp only [h1, if_true, true_iff]; exact le_of_lt ((LawfulVal.lt_iff a b).mp h1)
+  · by_cases h2 : Val.lt b a = true
+    · simp only [h1, h2, if_true, if_false, Bool.false_eq_true, false_iff, not_le]
+      exact (LawfulVal.lt_iff b a).mp h2
+    · have n1 : ¬ a < b := fun h => h1 ((LawfulVal.lt_iff a b).mpr h)
+      have n2 : ¬ b < a := fun h => h2 ((LawfulVal.lt_iff b a).mpr h)
+      have e : a = b := le_antisymm (not_lt.mp n2) (not_lt.mp n1)
+      subst e
+      simp [h1, LawfulVal.before_irrefl]
+
 theorem sortVals_pairwise (l : List α) : (sortVals l).Pairwise (· ≤ ·) := by
   unfold sortVals
-  have h := List.pairwise_mergeSort (le := fun a b : α => !Val.lt b a)
+  have h := List.pairwise_mergeSort (le := fun a b : α => sortLe a b)
     (fun a b c hab hbc => by
-      simp only [Bool.not_eq_eq_eq_not, Bool.not_true] at *
-      have h1 : ¬ b < a := by rw [← LawfulVal.lt_iff]; simp [hab]
-      have h2 : ¬ c < b := by rw [← LawfulVal.lt_iff]; simp [hbc]
-      have h3 : ¬ c < a := not_lt.mpr (le_trans (not_lt.mp h1) (not_lt.mp h2))
-      cases hc : Val.lt c a
-      · rfl
-      · exact absurd ((LawfulVal.lt_iff c a).mp hc) h3)
+      rw [sortLe_iff] at *; exact le_trans hab hbc)
     (fun a b => by
-      cases h1 : Val.lt b a <;> cases h2 : Val.lt a b <;> simp
-      exact lt_asymm ((LawfulVal.lt_iff b a).mp h1) ((LawfulVal.lt_iff a b).mp h2)) l
-  refine h.imp ?_
-  intro a b hab
-  have : ¬ b < a := by rw [← LawfulVal.lt_iff]; simpa using hab
-  exact not_lt.mp this
+      rcases le_total a b with h | h
+      · simp [(sortLe_iff a b).mpr h]
+      · simp [(sortLe_iff b a).mpr h]) l
+  exact h.imp (fun hab => (sortLe_iff _ _).mp hab)
 
 omit [LinearOrder α] [LawfulVal α] in
 theorem sortVals_perm (l : List α) : (sortVals l).Perm l := List.mergeSort_perm _ _
